@@ -284,6 +284,7 @@ func propC16(c *Ctx) {
 		}
 		// parameters of a membership helper that receive the table's columns at the call under examination
 		colsParam := map[ssa.Value]bool{}
+		argOfParam := map[ssa.Value]ssa.Value{} // parameter of a membership helper -> the argument at the call under examination
 		isColsLoad := func(v ssa.Value) bool {
 			if colsParam[stripConv(v)] {
 				return true
@@ -360,10 +361,45 @@ func propC16(c *Ctx) {
 				for fnOf.Parent() != nil {
 					fnOf = fnOf.Parent()
 				}
+				setVal := lk.X
+				if a, isArg := argOfParam[stripConv(lk.X)]; isArg {
+					// the set is the receiver/parameter of a small method (ns.has(name)): the caller's set
+					setVal = a
+					fnOf = vcr
+				}
 				withClosures(fnOf, func(f *ssa.Function) {
 					allInstrs(f, func(in ssa.Instruction) {
-						if mu, ok := in.(*ssa.MapUpdate); ok && sameVar(aff16(mu.Map), aff16(lk.X)) && isColName(mu.Key) {
+						if mu, ok := in.(*ssa.MapUpdate); ok && sameVar(aff16(mu.Map), aff16(setVal)) && isColName(mu.Key) {
 							filled = true
+						}
+						// filled through a method of the set: ns.add(c.Name) with add storing its parameter as a key of its receiver
+						if call, ok := in.(*ssa.Call); ok {
+							g := staticCallee(call)
+							if g == nil || g.Blocks == nil || !isRepoFunc(g) {
+								return
+							}
+							recvIdx := -1
+							for i, a := range call.Call.Args {
+								if sameVar(aff16(a), aff16(setVal)) || stripConv(a) == stripConv(setVal) {
+									recvIdx = i
+								}
+							}
+							if recvIdx < 0 || recvIdx >= len(g.Params) {
+								return
+							}
+							allInstrs(g, func(gi ssa.Instruction) {
+								mu, ok := gi.(*ssa.MapUpdate)
+								if !ok || stripConv(mu.Map) != ssa.Value(g.Params[recvIdx]) {
+									return
+								}
+								kp, isP := stripConv(mu.Key).(*ssa.Parameter)
+								if !isP {
+									return
+								}
+								if ki := paramIndex(kp); ki >= 0 && ki < len(call.Call.Args) && isColName(call.Call.Args[ki]) {
+									filled = true
+								}
+							})
 						}
 					})
 				})
@@ -448,6 +484,9 @@ func propC16(c *Ctx) {
 				for i, a := range x.Call.Args {
 					if i < len(h.Params) && isColsLoad(a) {
 						colsParam[h.Params[i]] = true // hasColumn(ig.Table.Columns, name)
+					}
+					if i < len(h.Params) {
+						argOfParam[h.Params[i]] = a
 					}
 				}
 				okAll := true
